@@ -172,6 +172,41 @@ def subfield_layer(ck, n_cases):
     ck.sample({"layer": "subfield-expr", "example": "np.unique(las.classification), las.return_number + np.uint8(3), las.synthetic[mask]"})
 
 
+def kept_view_layer(ck, n_cases):
+    """a view kept by the caller is a view onto the record: after the record is written by another route (assignment through
+    the record, a fresh view, or the raw array) every expression on the kept view must give what numpy gives on the field's
+    current values"""
+    from laspy.point import dims
+    fmts = sorted(dims.POINT_FORMAT_DIMENSIONS.keys())
+    for _ in range(n_cases):
+        fmt = ck.rng.choice(fmts)
+        n = ck.rng.choice([2, 5, 9])
+        rec = c09.new_record(fmt, n, ck.rng)
+        cname, name, mask = ck.rng.choice(c09.subfields(fmt))
+        lsb = c09.lsb_of(mask)
+        mx = mask >> lsb
+        view = rec[name]
+        # first uses of the view
+        _ = np.array(view), view == 0, view.max(), np.sum(view)
+        route = ck.rng.choice(["record_setitem", "fresh_view", "raw_array"])
+        newvals = np.array([ck.rng.randrange(0, mx + 1) for _ in range(n)])
+        if route == "record_setitem":
+            rec[name] = newvals
+        elif route == "fresh_view":
+            rec[name][:] = newvals
+        else:
+            rec.array[cname] = np.frombuffer(bytes(ck.rng.getrandbits(8) for _ in range(n)), dtype="u1")
+        truth = (rec.array[cname] & mask) >> lsb
+        c = ck.rng.randrange(0, mx + 2)
+        base = {"kind": "kept_view", "fmt": fmt, "field": name, "route": route, "bytes_now": rec.array[cname].tobytes().hex(), "c": c}
+        ck.count("kept_view:" + route)
+        exprs = {"np.array(v)": lambda v: np.array(v), "v == c": lambda v: v == c, "v != c": lambda v: v != c, "v < c": lambda v: v < c,
+                 "v >= c": lambda v: v >= c, "v + 1": lambda v: v + 1, "np.sum(v)": lambda v: np.sum(v), "v.max()": lambda v: v.max(),
+                 "v.min()": lambda v: v.min(), "np.unique(v)": lambda v: np.unique(v), "v[1:]": lambda v: np.array(v[1:]), "v[0]": lambda v: v[0]}
+        for label, fn in exprs.items():
+            compare(ck, f"fmt {fmt} {name} kept view after {route}: {label}", lambda: fn(view), lambda: fn(truth), dict(base, expr=label, finding_key="C10:kept_view"))
+
+
 # ------------------------------------------------------------------ scaled views
 
 def make_scaled(ck, n):
@@ -242,7 +277,11 @@ def scaled_layer(ck, n_cases):
             compare(ck, f"{name}({k}).{m}()", lambda: getattr(view, m)(), lambda: getattr(plain, m)(), dict(base, expr=f"view.{m}()", finding_key=f"C10:scaled:method:{'multi' if k > 1 else 'single'}"))
         elif kind == "index":
             kkind, key = c09.gen_key(ck.rng, n)
-            if kkind in ("list", "list_dup", "mask"):
+            if kkind in ("list", "list_dup") and ck.rng.random() < 0.5:
+                # a plain Python list of point indices, often of length 2 or 3 (as many entries as an (index, element) pair has)
+                key = [ck.rng.randrange(n) for _ in range(ck.rng.choice([2, 2, 3, 1, len(key) or 1]))]
+                kkind = "pylist%d" % len(key)
+            elif kkind in ("list", "list_dup", "mask"):
                 key = np.asarray(key) if kkind != "mask" else key
                 if kkind != "mask" and len(key) == 0:
                     key = np.array([], dtype=int)
@@ -289,6 +328,7 @@ def run(ck):
     cmp_layer(ck)
     q = ck.tier == "quick"
     subfield_layer(ck, 1500 if q else 30000)
+    kept_view_layer(ck, 60 if q else 1500)
     scaled_layer(ck, 800 if q else 12000)
     ck.failures.sort(key=lambda f: (f["input"]["kind"] != "cmp", abs(f["input"].get("c", 0))))
     if ck.tier == "thorough":
